@@ -122,7 +122,6 @@ type run struct {
 	sawBlockedCall bool // some actor sat inside a /repo call while the controller moved on
 	sawTaskPending bool // a consumer was blocked in a call while a task above it had not finished
 	bubbleDeadlock string
-
 }
 
 func newRun(p *program, freeRun bool) *run {
@@ -811,6 +810,9 @@ func (r *run) judge() string {
 	})
 	if verdict != "" {
 		return verdict
+	}
+	if r.src.late != nil && r.src.late() > 0 {
+		return fmt.Sprintf("underlying source was read %d times after it had been closed", r.src.late())
 	}
 	if r.src.closes != nil {
 		if c := r.src.closes(); c != 1 {
